@@ -44,3 +44,18 @@ Example C06_complete_nonvacuous :
   wk_indel ind = true /\ uni_indel 1 ind = true /\ cov_indel ind [0%nat; 1%nat] = true /\
   cycle_check 100 ind [0%nat; 1%nat] = CycAccepted /\ walk_delay ind [0%nat; 1%nat; 0%nat] = Some o.
 Proof. vm_compute. repeat split; reflexivity. Qed.
+
+(* tie to the source: World.ensure_no_dataflow_cycles as regenerated from mosaik/scenario.py on every run (Gen/CycleFns.v: the
+   initial table, the body of the while loop with its path bookkeeping, the final zero-delay test; driver Static/GenCycle.v)
+   gives the verdict - and, on rejection, the path - of the model's cycle_check, when the input-delay table lists the
+   simulators in their order, one row each.  dirty.pop() takes the oldest element in both (Python leaves the order open). *)
+From MV Require Import Gen.CycleFns Static.GenCycle Static.CycleTie.
+Theorem C06_generated_cycle_check_is_the_model : forall fuel ind sims, ind = map (fun s => (s, aget_l s ind)) sims ->
+  cycle_check_gen fuel sims (fun s => aget_l s ind) = cycle_check fuel ind sims.
+Proof. exact tie_cycle_check. Qed.
+Print Assumptions C06_generated_cycle_check_is_the_model.
+Example C06_generated_nonvacuous :
+  let z := mkI 1 1 [0%Z] in
+  let ind := [(0%nat, [(1%nat, z)]); (1%nat, [(0%nat, z)])] in
+  ind = map (fun s => (s, aget_l s ind)) [0%nat; 1%nat] /\ cycle_check_gen 100 [0%nat; 1%nat] (fun s => aget_l s ind) = CycRejected [0%nat; 1%nat; 0%nat].
+Proof. vm_compute. split; reflexivity. Qed.
